@@ -31,20 +31,20 @@ let spec_of_query fuel kb (q : term) (ctr : n) : Sexp.t =
   | SFuel -> A "fuel"
   | SOk evs ->
     let segs = ref [] in
-    let cur = Buffer.create 16 in
+    let cur = ref [] in      (* code points written since the last answer, most recent chunk first *)
+    let contents () = List.concat (List.rev !cur) in
     let bad_ans = ref false in
     List.iter (function
-        | EOut o -> Buffer.add_string cur (utf8_of_str o)
+        | EOut o -> cur := o :: !cur
         | EAns ss ->
           (match replace_variables fuel q ss with
            | Ok r ->
              let txt = match format_solution (GCall q) r with Ok t -> sexp_of_str t | _ -> A "?" in
-             segs := L [A "seg"; A (atom_of_str (List.map (fun c -> n_of_int (Char.code c)) (List.of_seq (String.to_seq (Buffer.contents cur)))));
-                        sexp_of_term r; txt] :: !segs
+             segs := L [A "seg"; A (atom_of_str (contents ())); sexp_of_term r; txt] :: !segs
            | _ -> bad_ans := true);
-          Buffer.clear cur) evs;
+          cur := []) evs;
     if !bad_ans then A "outside"
-    else L (A "trace" :: List.rev (L [A "end"; A (atom_of_str (List.map (fun c -> n_of_int (Char.code c)) (List.of_seq (String.to_seq (Buffer.contents cur)))))] :: !segs))
+    else L (A "trace" :: List.rev (L [A "end"; A (atom_of_str (contents ()))] :: !segs))
 
 exception Stop of Sexp.t   (* panic / fuel: ends the history *)
 
